@@ -27,6 +27,9 @@ _REAL = {
 _REAL_DATETIME = _datetime_mod.datetime
 
 
+TICKS = [0]      # seam operations performed in this process (1 simulated second each by default)
+
+
 class SimKill(BaseException):
     """The simulated process is killed inside a raw file-system operation."""
 
@@ -135,6 +138,7 @@ class SimFS:
             sim.park(None, f"fs:{kind}")
             sim.event("fs:" + kind, *[a for a in args if isinstance(a, (str, int))])
         self.events += 1
+        TICKS[0] += 1
         self.clock += self.clock_step
         self.counts[kind] = self.counts.get(kind, 0) + 1
         if self.keep_trace:
